@@ -237,7 +237,11 @@ def run(tier: str) -> int:
     res.count('m2_mismatches', bad)
     if m2:
         res.sample({'m2_layout': m2[0][2], 'as_input': m2[0][1]})
-    out = sim.run_many(build_jobs(tier), 'harness.c05:project')
+    jobs_ = build_jobs(tier)
+    # each of a seeded choice of the jobs once more, followed in the same process by neighbours that restate ONE of its figures: a value
+    # kept from one run for the next (a memo keyed by too few arguments, a mutated default) shows in the neighbour's own trace
+    chains = sim.neighbour_chains(jobs_, 10 if tier == 'quick' else 60, 3, seed() * 101 + 5, prefer=('Reservoir Depth', 'Gradient 1', 'Maximum Temperature', 'Drawdown Parameter', 'Maximum Drawdown', 'Surface Temperature', 'Injection Temperature', 'Production Flow Rate per Well'))
+    out = sim.run_many(jobs_, 'harness.c05:project') + sim.run_chains(chains, 'harness.c05:project')
     counts = validate(res, out)
     for need in ('C05_bht', 'C05_depth_cap', 'C05_tmax', 'C05_start', 'C05_limit', 'C05_restart', 'C05_upper', 'C05_monotone', 'model:MPF',
                  'model:LHS', 'model:SF', 'model:TDP', 'segments:2', 'segments:3', 'segments:4', 'redrilled', 'depth_capped'):
